@@ -57,7 +57,7 @@ macro_rules! l1_all {
 l1_all!(q, q, field_prev, 4, 5);
 l1_all!(t, t, field_prev_struct, 4, 5);
 l1_all!(t, q, field_first, 4, 5);
-l1_all!(q, q, boolfield, 4, 5);
+l1_all!(q, t, boolfield, 4, 5);
 l1_all!(t, t, fieldfar, 4, 5);
 l1_all!(q, q, list, 5, 7);
 l1_all!(t, t, list_bool, 5, 7);
